@@ -102,6 +102,9 @@ def main(argv=None):
                     return 3
             if hasattr(mod, "finalize_merged"):
                 mod.finalize_merged(run)
+            if a.tier == "thorough" and not os.environ.get("KDV_NO_AMBIENT"):
+                from kdv import ambient
+                ambient.run_for(pid, run, core.REPO)
         else:
             core.run_inprocess(mod, run)
             if hasattr(mod, "finalize_merged"):
